@@ -56,6 +56,10 @@
 (*                 the first bit below the narrow mantissa, makes the      *)
 (*                 spelling invalid                                        *)
 (*   ReadIdem      LLVM's reading is idempotent                            *)
+(*   ShortRule     spellings with fewer digits than the full form denote   *)
+(*                 what LLVM's lexer makes of them (rules above            *)
+(*                 ShortForms); 4 digit strings of every length 1..full-1  *)
+(*                 of every form are emitted as vectors as well            *)
 (*   Preserved     THE PROPERTY C10 on the model: the literal printed for  *)
 (*                 the canonical spelling of b denotes b.  Holds with      *)
 (*                 AsImplemented = FALSE, violated with TRUE               *)
@@ -362,20 +366,49 @@ VectorsOfJob(job) ==
 
 JobName(job) == job.kind \o "_" \o ToString(job.p)
 
-\* short and odd spellings that LLVM accepts (completed as its lexer does); outside the property's
-\* list of spellings, emitted so that the spec's reading of them is validated against LLVM
+\* Short spellings: fewer digits than the full form (16 for the double format, 4 for 0xH, 20 for
+\* 0xK, 32 for 0xL and 0xM).  LLVM 14 accepts them; its lexer completes them as follows (observed
+\* through llvm-as | llvm-dis, encoded in FloatRawHex through PairLM / PairK):
+\*   0x..., 0xH   the digits are a number: equal to the spelling left-padded with zeros;
+\*   0xL, 0xM     HexToIntPair: fewer than 16 digits -> first word 0, second word = the digits (equal
+\*                to left-padding to 32 digits); 16..31 digits -> first word = the first 16 digits,
+\*                second word = the REST left-padded (NOT equal to left-padding the whole spelling);
+\*   0xK          FP80HexToIntPair: the first min(4, n) digits are the sign/exponent word (left-
+\*                padded), the rest is the significand (left-padded): 0xK01 = 0001|0000000000000000,
+\*                an unnormal, which LLVM reads as NaN; 0xK3FFF8 = 3FFF|0000000000000008.
+FullDigits(form) == CASE form = "D" -> 16 [] form = "H" -> 4 [] form = "K" -> 20 [] OTHER -> 32
+ShortForms == <<<<"half", "H">>, <<"half", "D">>, <<"float", "D">>, <<"double", "D">>,
+                <<"x86_fp80", "K">>, <<"fp128", "L">>, <<"ppc_fp128", "M">>>>
+\* four digit strings of every length: 1000.., FFFF.., mixed non-zero digits, 0..01
+ShortDigits(n, v) == CASE v = 1 -> <<1>> \o Zeros(n - 1)
+                       [] v = 2 -> [i \in 1..n |-> 15]
+                       [] v = 3 -> [i \in 1..n |-> ((i * 7 + 3) % 15) + 1]
+                       [] v = 4 -> Zeros(n - 1) \o <<1>>
+ShortLitsOf(kf) == LET full == FullDigits(kf[2]) IN
+                   [i \in 1..(4 * (full - 1)) |-> Lit(kf[2], ShortDigits(((i - 1) \div 4) + 1, ((i - 1) % 4) + 1))]
+ShortVectorsOf(kf) == LET ls == ShortLitsOf(kf) IN
+                      [i \in 1..Len(ls) |->
+                         LET den == FloatDenoteHex(kf[1], ls[i]) IN
+                         Vec(kf[1], "short-spelling", LitText(ls[i]), den, IF den.ok THEN den.bits ELSE <<>>,
+                             IF den.ok THEN den.bits ELSE <<>>)]
+ShortVectors == Flatten([j \in 1..Len(ShortForms) |-> ShortVectorsOf(ShortForms[j])], Len(ShortForms))
+
+\* the completion rules stated above, as laws of FloatRawHex
+ShortRuleOf(kf) ==
+  LET k == kf[1]  f == kf[2]  ls == ShortLitsOf(kf) IN
+  \A i \in 1..Len(ls) :
+    LET d == ls[i].digs  n == Len(d) IN
+    FloatRawHex(k, ls[i]) =
+      FloatRawHex(k, Lit(f, IF f \in {"D", "H"} \/ (f \in {"L", "M"} /\ n < 16) THEN PadLeft(d, FullDigits(f))
+                            ELSE IF f = "K" THEN PadLeft(SubSeq(d, 1, IF n < 4 THEN n ELSE 4), 4)
+                                                 \o PadLeft(SubSeq(d, 5, n), 16)
+                            ELSE SubSeq(d, 1, 16) \o PadLeft(SubSeq(d, 17, n), 16)))
+
+\* mismatched spellings (wrong letter for the kind): invalid, LLVM must reject them
 ExtraLits ==
-  <<<<"half", Lit("H", <<1>>)>>, <<"half", Lit("H", <<12, 0>>)>>, <<"half", Lit("D", <<0>>)>>,
-    <<"float", Lit("D", <<0>>)>>, <<"double", Lit("D", <<1>>)>>, <<"double", Lit("D", <<8, 0, 0>>)>>,
-    <<"x86_fp80", Lit("K", <<1>>)>>, <<"x86_fp80", Lit("K", <<3, 15, 15, 15, 8>>)>>,
-    <<"x86_fp80", Lit("K", <<1, 2, 3, 4, 5>>)>>,
-    <<"fp128", Lit("L", <<1>>)>>, <<"fp128", Lit("L", <<1>> \o Zeros(15) \o <<2>>)>>,
-    <<"fp128", Lit("L", <<3, 15, 15, 15>> \o Zeros(12))>>,
-    <<"ppc_fp128", Lit("M", <<1>>)>>, <<"ppc_fp128", Lit("M", <<1>> \o Zeros(15) \o <<2>>)>>,
-    <<"ppc_fp128", Lit("M", <<3, 15, 15>> \o Zeros(13))>>,
-    \* wrong letter for the kind, too many digits: invalid
-    <<"double", Lit("H", <<3, 12, 0, 0>>)>>, <<"half", Lit("K", <<3, 15, 15, 15, 8>> \o Zeros(15))>>,
-    <<"x86_fp80", Lit("D", <<3, 15, 15>> \o Zeros(13))>>, <<"fp128", Lit("M", Zeros(32))>>>>
+  <<<<"double", Lit("H", <<3, 12, 0, 0>>)>>, <<"half", Lit("K", <<3, 15, 15, 15, 8>> \o Zeros(15))>>,
+    <<"x86_fp80", Lit("D", <<3, 15, 15>> \o Zeros(13))>>, <<"fp128", Lit("M", Zeros(32))>>,
+    <<"ppc_fp128", Lit("L", Zeros(32))>>, <<"float", Lit("H", <<3, 12, 0, 0>>)>>>>
 ExtraVectors == [i \in 1..Len(ExtraLits) |->
                    LET k == ExtraLits[i][1]  l == ExtraLits[i][2]  den == FloatDenoteHex(k, l) IN
                    Vec(k, "extra", LitText(l), den, IF den.ok THEN den.bits ELSE <<>>,
@@ -416,5 +449,9 @@ ReadIdem == stage = 2 => Read(K, Read(K, pat)) = Read(K, pat)
 Preserved == stage = 2 =>
   LET lit == HexSpelling(K, pat) IN ImplPrintBits(K, lit, AsImplemented) = FloatDenoteHex(K, lit).bits
 
-EmittedExtra == (stage = 0 /\ Emit) => ndJsonSerialize("vec_extra.ndjson", ExtraVectors)
+EmittedExtra == (stage = 0 /\ Emit) => /\ ndJsonSerialize("vec_extra.ndjson", ExtraVectors)
+                                       /\ ndJsonSerialize("vec_short.ndjson", ShortVectors)
+
+\* short spellings are completed as stated above ShortForms
+ShortRule == stage = 0 => \A j \in 1..Len(ShortForms) : ShortRuleOf(ShortForms[j])
 =============================================================================
